@@ -200,6 +200,31 @@ u_table(uint64_t idx, void *arg)
                 one_iter(addr, n, k, -1 - (int)vh_below(&rg, 3));
             }
         }
+    /* reads much longer than the table: refused at the first unmapped address without writing anything */
+    {
+        static const uint32_t longn[] = { 255, 256, 65535, 65536, 65537 };
+        static RegisterAtom *lb;
+        if (!lb)
+            lb = malloc(2 * 65537);
+        for (size_t li = 0; li < 5; li++) {
+            uint32_t addr = li & 1 ? lo : (d.nregs ? d.reg[d.nregs - 1].addr : lo);
+            if ((uint64_t)addr + longn[li] > 0x100000000ull)
+                continue; /* ranges that wrap past 2^32 are not generated */
+            long first_unmapped = -1;
+            for (uint32_t k = 0; k < 200 && first_unmapped < 0; k++)
+                if (rt_area_of(&d, addr + k) < 0)
+                    first_unmapped = (long)(addr + k);
+            memset(lb, 0x5E, 2 * (size_t)longn[li]);
+            VH_CASE4(idx, addr, longn[li], 7);
+            RegisterAccess a = register_block_read(&inst.t, addr, longn[li], lb);
+            if (a.code != REG_ACCESS_NOENTRY || (long)a.address != first_unmapped)
+                vh_fail("unmapped-read", "window=long", "table{%.100s} read(addr=%u,n=%u): code=%d address=%u, first unmapped %ld",
+                        rt_describe(&d), addr, longn[li], a.code, a.address, first_unmapped);
+            VH_COUNT("read much longer than the table");
+            /* iteration over a long range starting there: every register from the first overlapping one on */
+            one_iter(addr, longn[li], -1, 0);
+        }
+    }
     /* the whole-table idioms */
     one_iter(0, REGISTER_ADDRESS_MAX, -1, 0);
     one_iter(0, REGISTER_ADDRESS_MAX, 0, -1);
@@ -235,7 +260,7 @@ harness_run(void)
                                  "iteration: stopped by a negative callback result",
                                  "iteration: stopped by a positive callback result",
                                  "iteration: whole-table idiom foreach(0, ADDRESS_MAX)", "uninitialised table probed",
-                                 "iteration: range ending exactly at 2^32" };
+                                 "iteration: range ending exactly at 2^32", "read much longer than the table" };
     for (size_t i = 0; i < sizeof req / sizeof req[0]; i++)
         vh_require(req[i]);
 }
